@@ -1969,6 +1969,24 @@ impl NodeMut for XmlElement {
         Ok(XmlNode::from(value))
     }
 
+    fn replace_child(&self, new_child: XmlNode, old_child: &XmlNode) -> error::Result<XmlNode> {
+        // a merged text node stands for all of its pieces: if one of them has left this element
+        // the removal will be refused, so refuse before the new child is inserted.
+        if let XmlNode::ExpandedText(text) = old_child {
+            let element = self.element.borrow();
+            if text
+                .data
+                .iter()
+                .any(|v| element.child_index(v.id()).is_none())
+            {
+                return Err(error::DomException::NotFoundErr)?;
+            }
+        }
+
+        self.insert_before(new_child, Some(old_child))?;
+        self.remove_child(old_child)
+    }
+
     fn remove_child(&self, old_child: &XmlNode) -> error::Result<XmlNode> {
         if !same_document(&self.owner_document(), &old_child.owner_document()) {
             return Err(error::DomException::WrongDocumentErr)?;
